@@ -29,7 +29,7 @@ def damage_options(size, P):
 
 def pick_tree(rng, P, allow_single=True):
     A = alphabet(P)
-    shapes = ["D2", "D3", "D4", "D1", "D2n", "DN", "DNf", "DU", "D5"] + (["S1"] if allow_single else [])
+    shapes = ["D2", "D3", "D4", "D1", "D2n", "DN", "DNf", "DU", "D5", "DNFC", "DS"] + (["S1"] if allow_single else [])
     while True:
         sh = rng.choice(shapes)
         k = 1 if sh == "S1" else len(SHAPES[sh])
@@ -315,7 +315,8 @@ class C05(RecheckProp):
         M = 2 ** 20
         for v in (1, 2, 3):
             for src in ("own", "ref"):
-                for P, tr in ((2 * M, ("S1", (3 * M,))), (2 * M, ("D2", (2 * M + 1, 5))), (M, ("D2", (M + 5, 3))), (4 * M, ("S1", (5 * M + 1,)))):
+                for P, tr in ((2 * M, ("S1", (3 * M,))), (2 * M, ("D2", (2 * M + 1, 5))), (M, ("D2", (M + 5, 3))), (4 * M, ("S1", (5 * M + 1,))),
+                              (8 * M, ("D3", (M + 7, 9 * M + 3, 100 * 1024)))):
                     trees.append((v, src, P, tr))
         for v, src, P, tree in trees:
             g += 1
